@@ -96,8 +96,13 @@ func checkDurationSign(res *Result, rule string) {
 					found := false
 					for _, bb := range fn.Blocks {
 						if iff, ok := lastIf(bb); ok {
-							if cmp, ok := iff.Cond.(*ssa.BinOp); ok && cmp.Op == token.EQL {
-								if n, isN := intConst(cmp.Y); isN && n == '-' && (bb.Succs[0] == pred || bb.Succs[0].Dominates(pred)) {
+							if cmp, ok := iff.Cond.(*ssa.BinOp); ok && (cmp.Op == token.EQL || cmp.Op == token.NEQ) {
+								// the successor taken when the byte IS '-'
+								yes := bb.Succs[0]
+								if cmp.Op == token.NEQ {
+									yes = bb.Succs[1]
+								}
+								if n, isN := intConst(cmp.Y); isN && n == '-' && (yes == pred || yes.Dominates(pred)) {
 									found = true
 								}
 							}
